@@ -33,7 +33,11 @@ AD_ASSUMPTIONS = [
     "that d/dx exp = exp, d/dx ln = 1/x, d/dx x^p = p x^(p-1), Phi' = phi, (Phi^-1)' = 1/phi(Phi^-1) is calculus, taken as the oracle and not derived from limits",
 ]
 
-CURVE_UNCOVERED = []
+CURVE_UNCOVERED = [
+    "CurveDF::try_new / NodesTimestamp::from / sort_keys: 'the order in which nodes are supplied does not matter' rests on the assumed contract of IndexMap::sort_keys (sorted, same pairs); the uniqueness of the sorted arrangement is not proved as a lemma",
+    "sensitivities (gradient/Hessian) of the log-linear and linear-zero-rate rules at Dual/Dual2: only their VALUES are under contract; the linear rule has exact sensitivities",
+    "the log-cubic (spline) interpolator and the null interpolator",
+]
 
 CHECKS = {
     "C04": {
